@@ -8,9 +8,21 @@
 //              the upper words 0x00000000 / 0xffffffff; the lower word is mid-cell so a canonical
 //              is never exactly 0) followed by the fixed splitmix tail:
 //              value inside the documented support, finite, #canonicals <= justified bound.
+//              A third pass (Z4) forces lower word 0 and the upper words {0, 2^30, 2^31, 3*2^30}:
+//              canonicals 0, 1/4, 1/2, 3/4 EXACTLY (exact-zero canonical, dyadic ties), only for the
+//              families whose documented support is closed at 0 (see build_support_cases, end).
+//              rotate(): a wrong polar angle is reported per branch class of the incident direction
+//              (rotate:wrong-polar-angle[renorm,y<0 | renorm,y>=0 | on-axis | generic]) so that the
+//              recorded renormalising-branch defect does not mask anything else.
+//              Energy loss: e-, e+, mu-, p and alpha (charge 2): model choice (exact ties decided
+//              by the documented operator), the helper's beta^2 / 2 m_e beta^2 gamma^2 / Tmax / Bohr
+//              variance against a long double re-derivation, the Urban constructor's mean-loss
+//              identity in every branch, operator() == loss_scaling*(excitation + ionisation stage).
 //  quadrature  deterministic quadrature: the midpoint lattice {(i+1/2)/2^b_j} of the first
 //              canonicals is pushed through the sampler, the empirical CDF is compared with the
-//              analytic CDF (independent long double code below) in sup norm.
+//              analytic CDF (independent long double code below) in sup norm.  The Urban model is
+//              judged stage by stage (each branch of sample_fast_urban / sample_excitation_loss /
+//              sample_ionization_loss whose law is explicit) given the constructor's outputs.
 //              threshold = L + H + 2/N,
 //                L = sum_j c_j / 2^b_j   lattice term: a set whose boundary consists of c_j
 //                                        coordinate-monotone pieces meets at most c_j*N/2^b_j
@@ -187,8 +199,9 @@ struct ElossWorld
     CollectionStateStore<ParticleStateData, MemSpace::host> pstate;
     CollectionStateStore<MaterialStateData, MemSpace::host> mstate;
     std::vector<std::string> mat_names{"H2gas", "Ar", "Pb"};
-    std::vector<std::string> par_names{"e-", "e+", "mu-", "p"};
-    std::vector<double> par_mass{0.5109989461, 0.5109989461, 105.6583745, 938.272081};
+    std::vector<std::string> par_names{"e-", "e+", "mu-", "p", "alpha"};
+    std::vector<double> par_mass{0.5109989461, 0.5109989461, 105.6583745, 938.272081, 3727.379};
+    std::vector<double> par_charge{-1, 1, -1, 1, 2};
 
     ElossWorld()
     {
@@ -207,7 +220,8 @@ struct ElossWorld
             {"electron", pdg::electron(), MevMass{par_mass[0]}, ElementaryCharge{-1}, constants::stable_decay_constant},
             {"positron", pdg::positron(), MevMass{par_mass[1]}, ElementaryCharge{1}, constants::stable_decay_constant},
             {"mu_minus", pdg::mu_minus(), MevMass{par_mass[2]}, ElementaryCharge{-1}, constants::stable_decay_constant},
-            {"proton", pdg::proton(), MevMass{par_mass[3]}, ElementaryCharge{1}, constants::stable_decay_constant}};
+            {"proton", pdg::proton(), MevMass{par_mass[3]}, ElementaryCharge{1}, constants::stable_decay_constant},
+            {"alpha", pdg::alpha(), MevMass{par_mass[4]}, ElementaryCharge{2}, constants::stable_decay_constant}};
         particles = std::make_shared<ParticleParams>(std::move(pi));
         for (double cut : {1e-3, 10.0})
         {
@@ -231,6 +245,7 @@ struct Obs
     std::string const& cid;
     std::string const& cname;
     std::vector<uint32_t> const& script;
+    uint32_t lower = kMidCell;  // lower word of the scripted canonicals
     std::vector<char const*> tags;
     uint64_t outcome = 1469598103934665603ull;
 
@@ -239,7 +254,8 @@ struct Obs
         std::string s = cname + " script=[";
         for (size_t i = 0; i < script.size(); ++i)
             s += fmt("%s0x%08x", i ? "," : "", script[i]);
-        s += "] (canonical_i=(word_i+0.5)/2^32, then tail)";
+        s += lower == kMidCell ? "] (canonical_i=(word_i+0.5)/2^32, then tail)"
+                               : "] (canonical_i=word_i/2^32 EXACTLY (lower word 0), then tail)";
         return s;
     }
     void tag(char const* t) { tags.push_back(t); }
@@ -270,6 +286,7 @@ struct SupportCase
     std::string name;
     int max_script;  // the body never draws more canonicals than this (0: unbounded) -> k_eff
     std::function<void(Eng&, Obs&, uint64_t k)> body;  // k = number of forced canonicals
+    bool closed_at_zero = false;  // documented support is closed at canonical == 0: runs in the exact-dyadic pass
 };
 
 static std::vector<SupportCase> build_support_cases(ElossWorld& W, bool thorough)
@@ -617,6 +634,14 @@ static std::vector<SupportCase> build_support_cases(ElossWorld& W, bool thorough
             {"z=1-2^-53,x=y=0", {0, 0, 1 - 1.1102230246251565e-16}},
             {"just-inside-renormalising-branch", unit(0.004L, -0.002L, 1)},
             {"just-outside", unit(0.006L, -0.003L, 1)},
+            // near-axis letters OFF the recorded defect (y > 0): the renormalising branch must be
+            // right to the tight tolerance there, in both hemispheres
+            {"near+z,x<0,y>0", unit(-1e-3L, 2e-3L, 1)},
+            {"near-z,x>0,y>0", unit(2e-3L, 1e-3L, -1)},
+            {"near-z,h=5e-6,x<0,y>0", unit(-3e-6L, 4e-6L, -1)},
+            // between the double (0.005) and float (0.07) thresholds, y < 0, both hemispheres
+            {"h=0.036(generic-branch),y<0,-z", unit(0.03L, -0.02L, -1)},
+            {"h=0.036(generic-branch),y<0,+z", unit(-0.03L, -0.02L, 1)},
             {"generic", unit(1, 2, 3)},
             {"+x", {1, 0, 0}},
             {"-y", {0, -1, 0}},
@@ -647,8 +672,14 @@ static std::vector<SupportCase> build_support_cases(ElossWorld& W, bool thorough
                 if ((h == 0 && std::fabs(rot[2]) == 1.0) || h >= 1e-7L)
                 {
                     ld tol = 1e-14L + (h > 0 ? 4e-16L / (h * h) : 0);
+                    // signature: one per branch class of the incident direction, so that the recorded
+                    // defect (renormalising branch, y < 0: sign of sin(phi) lost) does not mask a wrong
+                    // polar angle anywhere else
+                    char const* cls = (h > 0 && h < 0.005L) ? (rot[1] < 0 ? "renorm,y<0" : "renorm,y>=0")
+                                      : h == 0              ? "on-axis"
+                                                            : "generic";
                     if (!(fabsl(dot - ct) <= tol))
-                        o.fail("rotate:wrong-polar-angle",
+                        o.fail(fmt("rotate:wrong-polar-angle[%s]", cls),
                                fmt("incident=(%.17g,%.17g,%.17g) cos theta=%.17g phi=%.17g: out.incident=%.17Lg (diff %.3Lg, tol %.3Lg)",
                                    rot[0], rot[1], rot[2], ct, phi, dot, dot - ct, tol));
                 }
@@ -910,7 +941,29 @@ static std::vector<SupportCase> build_support_cases(ElossWorld& W, bool thorough
         // ionisation: one fast Gaussian (632) + Poisson(8 xs/(xs+8) < 8) (120) + one uniform per
         // ionisation (<= 120)
         uint64_t const urban_per_call = 2 * 121 + 632 + 632 + 120 + 120;
-        auto tag_urban = [](EnergyLossUrbanDistribution const& d, Obs& o) {
+        auto tag_urban = [](EnergyLossUrbanDistribution const& d, Obs& o, double unscaled_mean_loss) {
+            // The model's defining identity (PRM Eq. 7.10/7.11, class comment "keeping the mean loss
+            // the same"): in EVERY constructor branch the expected loss of the three processes,
+            // rescaled, is the requested mean loss:
+            //   loss_scaling (Sigma_1 E_1 + Sigma_2 E_2 + Sigma_3 E0 ln(Tmax/E0) Tmax/(Tmax-E0)) = <dE>
+            // (excitation carries (1-r), ionisation r - or everything when excitation is off; the
+            // width correction multiplies E_1 and divides Sigma_1 by the same factor).  Rounding: a
+            // dozen double operations, and f_1 ln E_1 + f_2 ln E_2 = ln I holds to ~1e-15 relative in
+            // the stored parameters, amplified by |ln I|/(w - w_0) <~ 1e3 on this lattice: 1e-9.
+            {
+                ld const e0 = 1e-5L, tmax = d.max_energy_;
+                ld const exc = ld(d.xs_exc_[0]) * d.binding_energy_[0] + ld(d.xs_exc_[1]) * d.binding_energy_[1];
+                ld const ion = ld(d.xs_ion_) * e0 * logl(tmax / e0) * tmax / (tmax - e0);
+                ld const total = ld(d.loss_scaling_) * (exc + ion);
+                ld const rel = fabsl(total - unscaled_mean_loss) / unscaled_mean_loss;
+                o.R.maxi("urban_ctor_mean_identity_relerr_1e-18", uint64_t(double(rel) * 1e18));
+                if (!(rel <= 1e-9L))
+                    o.fail("eloss-urban:constructor-mean-loss-identity",
+                           fmt("loss_scaling(%.17g) * (xs_exc.E = %.17Lg + xs_ion<E> = %.17Lg) = %.17Lg but the "
+                               "requested mean loss is %.17g (xs_exc=(%g,%g) E=(%g,%g) xs_ion=%g Tmax=%g)",
+                               d.loss_scaling_, exc, ion, total, unscaled_mean_loss, d.xs_exc_[0], d.xs_exc_[1],
+                               d.binding_energy_[0], d.binding_energy_[1], d.xs_ion_, d.max_energy_));
+            }
             double const e0 = 1e-5;
             for (int i = 0; i < 2; ++i)
             {
@@ -929,11 +982,22 @@ static std::vector<SupportCase> build_support_cases(ElossWorld& W, bool thorough
                 o.tag("urban:width-correction-max");
             (void)e0;
         };
-        auto sample_urban = [urban_per_call, tag_urban](EnergyLossUrbanDistribution& d, Eng& e, Obs& o, uint64_t k) {
-            tag_urban(d, o);
+        auto sample_urban = [urban_per_call, tag_urban](EnergyLossUrbanDistribution& d, Eng& e, Obs& o, uint64_t k,
+                                                        double unscaled_mean_loss) {
+            tag_urban(d, o, unscaled_mean_loss);
             for (int c = 0; c < 2; ++c)
             {
+                // operator() is loss_scaling * (excitation stage + ionisation stage) on the same word
+                // stream (the stages are judged against their analytic laws in part "quadrature"; the
+                // order in which the two operands of '+' are evaluated is the compiler's choice)
+                Eng e1 = e, e2 = e;
+                double const exc1 = d.sample_excitation_loss(e1), ion1 = d.sample_ionization_loss(e1);
+                double const ion2 = d.sample_ionization_loss(e2), exc2 = d.sample_excitation_loss(e2);
                 double x = d(e).value();
+                if (x != d.loss_scaling_ * (exc1 + ion1) && x != d.loss_scaling_ * (exc2 + ion2))
+                    o.fail("eloss-urban:not-scaled-sum-of-stages",
+                           fmt("operator() = %.17g but loss_scaling (%.17g) * (excitation %.17g + ionisation %.17g) = %.17g",
+                               x, d.loss_scaling_, exc1, ion1, d.loss_scaling_ * (exc1 + ion1)));
                 o.value(x);
                 o.finite(x, "eloss-urban");
                 o.draws_le(e, k + (c + 1) * urban_per_call, "eloss-urban");
@@ -947,17 +1011,10 @@ static std::vector<SupportCase> build_support_cases(ElossWorld& W, bool thorough
         std::vector<double> energies = {3e-5, 1e-3, 1e-2, 1.0, 100.0, 1e4};
         std::vector<double> losses = {5e-6, 2e-5, 1e-3, 0.1, 5.0};
         std::vector<double> steps = {1e-4, 1e-2, 1.0};
-        for (int ip = 0; ip < 4; ++ip)
-            for (int im = 0; im < 3; ++im)
-                for (double E : energies)
-                    for (double loss : losses)
-                        for (double step : steps)
-                            for (int ic = 0; ic < 2; ++ic)
+        // one helper-driven case
+        auto add_eloss = [&](int ip, int im, double E, double loss, double step, int ic) {
                             {
-                                if (loss > E)
-                                    continue;
-                                if (!thorough && ((ip + im + ic) % 2 || step == 1e-4))
-                                    continue;
+                            {
                                 ElossWorld* w = &W;
                                 add("eloss",
                                     fmt("%s,%s,E=%g,loss=%g,step=%g,cut=%g", W.par_names[ip].c_str(),
@@ -986,16 +1043,26 @@ static std::vector<SupportCase> build_support_cases(ElossWorld& W, bool thorough
                                         ld const e0 = 1e-5L;
                                         ld const nel = w->materials->get(MaterialId(im)).electron_density();
                                         ld const re = constants::r_electron;
-                                        ld const bohr = 2 * kPi * re * re * me * nel * tc * ld(step * units::centimeter) * (1 / bsq - 0.5L);
+                                        ld const q = w->par_charge[ip];
+                                        ld const bohr = 2 * kPi * re * re * me * nel * q * q * tc * ld(step * units::centimeter) * (1 / bsq - 0.5L);
                                         auto near = [](ld a, ld b) { return fabsl(a - b) <= 1e-9L * fmaxl(fabsl(a), fabsl(b)); };
+                                        // Exact ties: where both sides of a documented comparison are
+                                        // BIT-IDENTICAL doubles (plain input letters, no computed quantity
+                                        // involved) the documented operator decides - G4UniversalFluctuation:
+                                        // "meanLoss < minLoss -> no fluctuation", "meanLoss >= 10 tcut (and
+                                        // tmax <= 2 tcut) -> Gaussian/gamma", i.e. Urban iff loss < 10 Tc.
+                                        // Merely close values (computed Tmax, Bohr variance) are skipped.
+                                        bool const tie_e0 = (loss == 1e-5);
+                                        bool const tc_is_cut = tmax > ld(w->cut_value[ic]) * (1 + 1e-6L);
+                                        bool const tie_kappa = tc_is_cut && (10.0 * w->cut_value[ic] == loss);
                                         int want = -1;  // -1: too close to a regime boundary to call
-                                        if (near(loss, e0) || near(tc, e0))
+                                        if ((!tie_e0 && near(loss, e0)) || near(tc, e0))
                                             want = -1;
-                                        else if (loss < e0 || tc <= e0)
+                                        else if ((!tie_e0 && loss < e0) || tc <= e0)
                                             want = int(Model::none);
-                                        else if (near(loss, 10 * tc) || near(tmax, 2 * tc))
+                                        else if ((!tie_kappa && near(loss, 10 * tc)) || near(tmax, 2 * tc))
                                             want = -1;
-                                        else if (mr >= 1 || loss < 10 * tc || tmax > 2 * tc)
+                                        else if (mr >= 1 || (!tie_kappa && loss < 10 * tc) || tmax > 2 * tc)
                                             want = int(Model::urban);
                                         else if (near(ld(loss) * loss, 4 * bohr))
                                             want = -1;
@@ -1006,6 +1073,35 @@ static std::vector<SupportCase> build_support_cases(ElossWorld& W, bool thorough
                                                    fmt("helper chose model %d, documented rules give %d (Tmax=%Lg Tc=%Lg "
                                                        "bohr_var=%Lg mass_ratio=%Lg)",
                                                        int(model), want, tmax, tc, bohr, mr));
+                                        if (tie_e0 && want >= 0)
+                                            o.tag("eloss:exact-tie:loss==E0");
+                                        if (tie_kappa && want >= 0)
+                                            o.tag("eloss:exact-tie:loss==10Tc");
+                                        if (model != Model::none)
+                                        {
+                                            // the helper's precalculated quantities against the re-derivation
+                                            // above.  Rounding model: beta^2 = 1 - (m/(E+m))^2 is formed in
+                                            // double with an absolute error of ~2 ulp(1), i.e. a relative error
+                                            // 2e-16/beta^2 that all four quantities inherit; a dozen further
+                                            // operations: 1e-12.
+                                            ld const tol = 1e-12L + 2e-15L / bsq;
+                                            struct Cmp
+                                            {
+                                                char const* what;
+                                                ld got, want;
+                                            };
+                                            Cmp const cmps[] = {{"beta_sq", helper.beta_sq(), bsq},
+                                                                {"two_mebsgs", value_as<units::MevMass>(helper.two_mebsgs()), two_mebsgs},
+                                                                {"max_energy", value_as<MevEnergy>(helper.max_energy()), tc},
+                                                                {"bohr_variance", helper.bohr_variance().value(), bohr}};
+                                            for (Cmp const& c : cmps)
+                                                if (!(fabsl(c.got - c.want) <= tol * fabsl(c.want)))
+                                                    o.fail(fmt("eloss:helper-%s", c.what),
+                                                           fmt("helper.%s() = %.17Lg, re-derived %.17Lg (rel. diff %.3Lg, tol %.3Lg; charge %Lg)",
+                                                               c.what, c.got, c.want, (c.got - c.want) / c.want, tol, q));
+                                            if (q * q != 1)
+                                                o.tag("eloss:charge^2!=1");
+                                        }
                                         switch (model)
                                         {
                                             case Model::none: {
@@ -1053,12 +1149,43 @@ static std::vector<SupportCase> build_support_cases(ElossWorld& W, bool thorough
                                             case Model::urban: {
                                                 o.tag("eloss:model=urban");
                                                 EnergyLossUrbanDistribution d(helper);
-                                                sample_urban(d, e, o, k);
+                                                sample_urban(d, e, o, k, loss);
                                                 break;
                                             }
                                         }
                                     });
                             }
+                            }
+        };
+        for (int ip = 0; ip < 5; ++ip)
+            for (int im = 0; im < 3; ++im)
+                for (double E : energies)
+                    for (double loss : losses)
+                        for (double step : steps)
+                            for (int ic = 0; ic < 2; ++ic)
+                            {
+                                if (loss > E)
+                                    continue;
+                                if (!thorough && ((ip + im + ic) % 2 || step == 1e-4))
+                                    continue;
+                                add_eloss(ip, im, E, loss, step, ic);
+                            }
+        // exact regime ties (plain letters): loss == E0 = 1e-5 (helper line "mean_loss < min_energy"),
+        // loss == 10 Tc with Tc = cut = 1e-3 (0.001 * 10 == 0.01 in double); the latter decides only
+        // when Tmax is in (Tc, 2 Tc]: mu- at 0.08 MeV (Tmax = 1.55 keV), p at 0.7 MeV (1.53 keV),
+        // alpha at 2.8 MeV (1.54 keV)
+        for (int ip = 0; ip < 5; ++ip)
+            for (int im = 0; im < 3; ++im)
+            {
+                if (!thorough && (ip + im) % 2)
+                    continue;
+                for (double E : {1e-3, 1.0})
+                    for (int ic = 0; ic < 2; ++ic)
+                        add_eloss(ip, im, E, 1e-5, 1e-2, ic);
+                for (double E : {0.08, 0.7, 2.8})
+                    for (double step : {1e-2, 1.0})
+                        add_eloss(ip, im, E, 1e-2, step, 0);
+            }
         // Urban through its public constructor, to reach the branches the helper cannot produce
         struct U
         {
@@ -1080,8 +1207,27 @@ static std::vector<SupportCase> build_support_cases(ElossWorld& W, bool thorough
                 material = {MaterialId(u.mat)};
                 EnergyLossUrbanDistribution d(w->fluct->host_ref(), material, units::MevEnergy{u.loss},
                                               units::MevEnergy{u.tmax}, units::MevMass{u.two_mebsgs}, u.bsq);
-                sample_urban(d, e, o, k);
+                sample_urban(d, e, o, k, u.loss);
             });
+        }
+    }
+    // Families whose documented support is closed at canonical == 0 (u in [0,1)): they also run in the
+    // exact-dyadic pass (u = 0, 1/4, 1/2, 3/4 exactly; exact ties u*total == partial sum for the dyadic
+    // selector weights).  NOT in this set, on purpose: exponential / normal / gamma / Poisson(lambda>16) /
+    // everything built on them (log(0), u^(1/alpha) = 0: the unmodified samplers return inf / 0 there,
+    // probability 2^-64 per draw), rejection (f = 0 is "accepted" by u = 0 < 0 being false only), the
+    // rotate / from_spherical letters (not samplers), canonical:scripted-path (asserts u > 0).
+    for (auto& c : C)
+    {
+        static char const* const fams[] = {"bernoulli", "selector", "uniform", "box", "radial",
+                                           "isotropic", "invsquare", "reciprocal"};
+        for (char const* f : fams)
+            if (c.family == f)
+                c.closed_at_zero = true;
+        if (c.family == "poisson")
+        {
+            double l = std::atof(c.name.c_str() + std::string("poisson:lambda=").size());
+            c.closed_at_zero = (l > 0 && l <= 16);
         }
     }
     return C;
@@ -1098,6 +1244,8 @@ static void run_support(vf::Run& R, ElossWorld& W)
         char const* id;
         std::vector<uint32_t> A;
         int k;
+        uint32_t lower = kMidCell;  // lower word of scripted canonicals
+        bool only_closed_at_zero = false;
     };
     std::vector<uint32_t> A9 = vf::alphabet_u7();
     A9.push_back(0x20000000u);
@@ -1107,16 +1255,19 @@ static void run_support(vf::Run& R, ElossWorld& W)
     {
         passes.push_back({"A7k6", vf::alphabet_u7(), 6});
         passes.push_back({"A9k4", A9, 4});
+        passes.push_back({"Z4k4", {0x00000000u, 0x40000000u, 0x80000000u, 0xc0000000u}, 4, 0u, true});
     }
     else
     {
         passes.push_back({"A5k4", vf::alphabet_u5(), 4});
         passes.push_back({"A9k3", A9, 3});
+        passes.push_back({"Z4k3", {0x00000000u, 0x40000000u, 0x80000000u, 0xc0000000u}, 3, 0u, true});
     }
     auto cases = build_support_cases(W, thorough);
     R.note("support:alphabet",
-           fmt("passes %s and %s; lower word 0x%08x (canonical=(upper+1/2)/2^32); %zu sampler cases", passes[0].id,
-               passes[1].id, kMidCell, cases.size()));
+           fmt("passes %s and %s with lower word 0x%08x (canonical=(upper+1/2)/2^32); pass %s with lower word 0 "
+               "(canonical = 0, 1/4, 1/2, 3/4 EXACTLY) for the families whose support is closed at 0; %zu sampler cases",
+               passes[0].id, passes[1].id, kMidCell, passes[2].id, cases.size()));
     std::map<std::string, uint64_t> fam_max;
     uint64_t outer = 0;
     for (Pass const& P : passes)
@@ -1131,6 +1282,8 @@ static void run_support(vf::Run& R, ElossWorld& W)
                 if (R.expired())
                     break;
                 SupportCase const& c = cases[ic];
+                if (P.only_closed_at_zero && !c.closed_at_zero)
+                    continue;
                 // helper-driven eloss cases are the numerous and expensive ones: one letter less
                 int Kc = (P.k == 6 && c.family == "eloss") ? 5 : P.k;
                 int const k = c.max_script ? std::min(Kc, c.max_script) : Kc;
@@ -1155,8 +1308,8 @@ static void run_support(vf::Run& R, ElossWorld& W)
                         script[j] = A[r % nA];
                         r /= nA;
                     }
-                    Eng e(script, mix64(seed0 + idx), kMidCell);
-                    Obs o{R, cid, c.name, script};
+                    Eng e(script, mix64(seed0 + idx), P.lower);
+                    Obs o{R, cid, c.name, script, P.lower};
                     c.body(e, o, uint64_t(k));
                     maxc = std::max<uint64_t>(maxc, e.canonicals());
                     uint64_t combo = 0;
@@ -1287,6 +1440,28 @@ static double ks_sup(std::vector<double>& v, Cdf&& F, size_t stride)
     }
     return d;
 }
+//! version for laws with atoms: F is the right-continuous CDF, Fl its left limit F(x-); the
+//! fraction of samples < x is compared with F(x-), the fraction <= x with F(x)
+template<class Cdf, class CdfL>
+static double ks_sup_lr(std::vector<double>& v, Cdf&& F, CdfL&& Fl, size_t stride)
+{
+    std::sort(v.begin(), v.end());
+    size_t const N = v.size();
+    double d = 0;
+    if (!N)
+        return 0;
+    for (size_t i = 0;; i += stride)
+    {
+        if (i >= N)
+            i = N - 1;
+        auto er = std::equal_range(v.begin(), v.end(), v[i]);
+        double lo = double(er.first - v.begin()) / N, hi = double(er.second - v.begin()) / N;
+        d = std::max(d, std::max(std::fabs(double(Fl(v[i])) - lo), std::fabs(double(F(v[i])) - hi)));
+        if (i == N - 1)
+            break;
+    }
+    return d;
+}
 //! discrete version: CDF compared at every atom
 template<class Cdf>
 static double ks_sup_discrete(std::vector<double> const& v, Cdf&& F)
@@ -1355,6 +1530,27 @@ struct Quad
             double d = ks_sup(q.first, F, stride);
             judge("cdf|first-attempt-accepted", d, l, 0, nf, 2.0 / p);
         }
+        R.count("evaluations", N);
+        R.maxi(("max_canonicals:" + family).c_str(), q.max_canon);
+        R.tag("quad:" + family);
+        if (q.n_tail)
+            R.tag("quad:tail-used:" + family, q.n_tail);
+        R.nontrivial(vf::hash_str(cid));
+    }
+    //! continuous scalar sampler whose law also has atoms (F right-continuous, Fl = left limit)
+    template<class Fn, class Cdf, class CdfL>
+    void continuous_lr(Lattice const& L, std::vector<double> const& pieces, Fn&& fn, Cdf&& F, CdfL&& Fl,
+                       size_t stride = 1)
+    {
+        QuadOut q = run_lattice(L, seed(), fn);
+        uint64_t const N = q.all.size();
+        for (double x : q.all)
+            if (!std::isfinite(x))
+            {
+                R.violation("quad:" + family + ":non-finite", cid, "non-finite sample on the lattice");
+                return;
+            }
+        judge("cdf", ks_sup_lr(q.all, F, Fl, stride), L.lterm(pieces), q.n_tail, N);
         R.count("evaluations", N);
         R.maxi(("max_canonicals:" + family).c_str(), q.max_canon);
         R.tag("quad:" + family);
@@ -1714,25 +1910,29 @@ static std::vector<QuadCase> build_quad_cases(ElossWorld& W, bool thorough)
                              [=](double x) { return gamma_p(k, ld(x) * k / m); }, 16);
             });
         }
-        // through the helper (mu- 10 keV in Ar, as in the unit test): Bohr variance re-derived here
+        // through the helper (mu- 10 keV in Ar, as in the unit test; alpha 1 MeV: charge 2, the Bohr
+        // variance carries q^2): Bohr variance re-derived here
+        for (auto pe : std::vector<std::pair<int, double>>{{2, 1e-2}, {4, 1.0}})
         for (double step : {5e-4, 5e-2})
         {
             ElossWorld* w = &W;
-            add("eloss", fmt("helper:mu-,Ar,E=0.01,loss=0.1,step=%g", step), [=](Quad& Q) {
+            int const ip = pe.first;
+            double const Ekin = pe.second;
+            add("eloss", fmt("helper:%s,Ar,E=%g,loss=0.1,step=%g", W.par_names[ip].c_str(), Ekin, step), [=](Quad& Q) {
                 using units::MevEnergy;
                 ParticleTrackView particle(w->particles->host_ref(), w->pstate.ref(), TrackSlotId{0});
-                particle = {ParticleId(2), MevEnergy{1e-2}};
+                particle = {ParticleId(ip), MevEnergy{Ekin}};
                 MaterialTrackView material(w->materials->host_ref(), w->mstate.ref(), TrackSlotId{0});
                 material = {MaterialId(1)};
                 CutoffView cutoff(w->cutoffs[0]->host_ref(), MaterialId(1));
                 EnergyLossHelper helper(w->fluct->host_ref(), cutoff, material, particle, MevEnergy{0.1},
                                         step * units::centimeter);
-                ld const me = 0.5109989461L, M = w->par_mass[2], E = 1e-2L;
+                ld const me = 0.5109989461L, M = w->par_mass[ip], E = Ekin, q = w->par_charge[ip];
                 ld const gam = 1 + E / M, bsq = 1 - 1 / (gam * gam), mr = me / M;
                 ld const tmax = 2 * me * bsq * gam * gam / (1 + mr * (2 * gam + mr));
                 ld const nel = w->materials->get(MaterialId(1)).electron_density();
                 ld const re = constants::r_electron;
-                ld const var = 2 * kPi * re * re * me * nel * tmax * ld(step * units::centimeter) * (1 / bsq - 0.5L);
+                ld const var = 2 * kPi * re * re * me * nel * q * q * tmax * ld(step * units::centimeter) * (1 / bsq - 0.5L);
                 ld const m = 0.1L, s = sqrtl(var);
                 if (helper.model() == EnergyLossFluctuationModel::gaussian)
                 {
@@ -1787,6 +1987,308 @@ static std::vector<QuadCase> build_quad_cases(ElossWorld& W, bool thorough)
                 Q.R.count("evaluations", q.all.size());
                 Q.R.tag("quad:eloss-urban(info)");
             });
+        }
+        // Urban sampling STAGES (private members reached with -fno-access-control).  The model is a sum
+        // of independent stages whose laws are explicit (Geant4 PRM 7.3.2 / GEANT3 PHYS332 2.4, restated
+        // in the class comments); every stage is judged against its analytic CDF given the constructor's
+        // outputs (xs_exc_, binding_energy_, xs_ion_, max_energy_), and the constructor's outputs are
+        // judged separately against the mean-loss identity in part "support".  One case per branch:
+        //   fast(mean,sd)            sd <= 4 mean: N(mean,sd) truncated to (0,2 mean]; else U(0,2 mean)
+        //   excitation, level fast   contributes (xs_i E_i, xs_i E_i^2) to ONE truncated normal:
+        //                            mean = sum xs_i E_i, variance = sum xs_i E_i^2 over the fast levels
+        //   excitation, level Poisson  n ~ Poisson(xs_i); n = 0: nothing, else E_i U(n-1,n+1)
+        //   ionisation, xs_ion <= 8  n ~ Poisson(xs_ion) collisions of E0/U(E0/Tmax,1) (density ~ 1/E^2 on
+        //                            [E0,Tmax])
+        {
+            ElossWorld* w = &W;
+            struct US
+            {
+                int mat;
+                double loss, tmax, two_mebsgs, bsq;
+            };
+            auto make = [w](US u) {
+                MaterialTrackView material(w->materials->host_ref(), w->mstate.ref(), TrackSlotId{0});
+                material = {MaterialId(u.mat)};
+                return EnergyLossUrbanDistribution(w->fluct->host_ref(), material, units::MevEnergy{u.loss},
+                                                   units::MevEnergy{u.tmax}, units::MevMass{u.two_mebsgs}, u.bsq);
+            };
+            // truncated normal on (0, 2m]: CDF G and its antiderivative H (integral of G from -inf)
+            struct TN
+            {
+                ld m, s;  // s == 0: no Gaussian part (G = step at 0)
+                ld lo() const { return Phi(-m / s); }
+                ld hi() const { return Phi(m / s); }
+                ld G(ld y) const
+                {
+                    if (s == 0)
+                        return y >= 0 ? 1 : 0;
+                    if (y <= 0)
+                        return 0;
+                    if (y >= 2 * m)
+                        return 1;
+                    return (Phi((y - m) / s) - lo()) / (hi() - lo());
+                }
+                ld H(ld y) const
+                {
+                    if (s == 0)
+                        return y > 0 ? y : 0;
+                    if (y <= 0)
+                        return 0;
+                    // int Phi(z) dz = z Phi(z) + phi(z)
+                    auto A = [](ld z) { return z * Phi(z) + expl(-z * z / 2) / sqrtl(2 * kPi); };
+                    ld yy = y < 2 * m ? y : 2 * m;
+                    ld in = (s * (A((yy - m) / s) - A(-m / s)) - lo() * yy) / (hi() - lo());
+                    return in + (y > 2 * m ? y - 2 * m : 0);
+                }
+            };
+            // law of  [Poisson(lam) smear of level energy E]  +  [TN]  (independent)
+            auto smear_cdf = [](ld lam, ld E, TN g) {
+                return [=](double x) {
+                    ld f = expl(-lam) * g.G(x);
+                    for (int n = 1; n < 200; ++n)
+                    {
+                        ld pn = expl(-lam + n * logl(lam) - lgammal(ld(n) + 1));
+                        f += pn * (g.H(ld(x) - (n - 1) * E) - g.H(ld(x) - (n + 1) * E)) / (2 * E);
+                    }
+                    return f;
+                };
+            };
+
+            //// fast(mean, sd) ////
+            for (auto p : std::vector<std::pair<double, double>>{{1, 0.5}, {1, 3.9}, {3e-3, 1e-3}})
+            {
+                double m = p.first, sd = p.second;
+                add("eloss-urban", fmt("stage:fast:mean=%g,sd=%g (truncated normal)", m, sd), [=](Quad& Q) {
+                    TN g{m, sd};
+                    Q.continuous(L2, bm2,
+                                 [=](Eng& e) { return EnergyLossUrbanDistribution::sample_fast_urban(m, sd, e); },
+                                 [=](double x) { return g.G(x); }, 1, true);
+                    Q.R.tag("quad:urban-stage:fast-gaussian");
+                });
+            }
+            add("eloss-urban", "stage:fast:mean=1,sd=4.5 (uniform on (0,2 mean))", [=](Quad& Q) {
+                Q.continuous(L1, mono1,
+                             [=](Eng& e) { return EnergyLossUrbanDistribution::sample_fast_urban(1.0, 4.5, e); },
+                             [=](double x) { return ld(x) / 2; });
+                Q.R.tag("quad:urban-stage:fast-uniform");
+            });
+
+            //// excitation: both levels fast / level 1 fast and level 2 off ////
+            struct ExcFast
+            {
+                US u;
+                bool both;
+                char const* what;
+            };
+            std::vector<ExcFast> efs = {{{1, 2.0, 50.0, 1e3, 0.99}, true, "Ar,loss=2,Tmax=50"},
+                                        {{1, 2.0, 1e-3, 1e3, 0.99}, true, "Ar,loss=2,Tmax=0.001(width-correction)"},
+                                        {{1, 20.0, 1.0, 50.0, 0.98}, true, "Ar,loss=20,Tmax=1"},
+                                        {{0, 0.01, 1.0, 1e3, 0.99}, false, "H2,loss=0.01,Tmax=1"}};
+            for (auto ef : efs)
+                add("eloss-urban",
+                    fmt("stage:excitation:%s:%s", ef.both ? "both-levels-fast" : "level1-fast,level2-off", ef.what),
+                    [=](Quad& Q) {
+                        EnergyLossUrbanDistribution d = make(ef.u);
+                        bool f0 = d.xs_exc_[0] > 8, f1 = d.xs_exc_[1] > 8;
+                        if (!(f0 && (ef.both ? f1 : d.xs_exc_[1] == 0)))
+                        {
+                            Q.R.harness_error(fmt("%s: excitation regime is not the declared one (xs_exc=%g,%g)",
+                                                  Q.cid.c_str(), d.xs_exc_[0], d.xs_exc_[1]));
+                            return;
+                        }
+                        ld m = 0, var = 0;
+                        for (int i = 0; i < 2; ++i)
+                        {
+                            m += ld(d.xs_exc_[i]) * d.binding_energy_[i];
+                            var += ld(d.xs_exc_[i]) * d.binding_energy_[i] * d.binding_energy_[i];
+                        }
+                        TN g{m, sqrtl(var)};
+                        Q.R.note("info:" + Q.cid, fmt("xs_exc=(%g,%g) E=(%g,%g): truncated normal mean=%Lg sd=%Lg",
+                                                      d.xs_exc_[0], d.xs_exc_[1], d.binding_energy_[0],
+                                                      d.binding_energy_[1], g.m, g.s));
+                        Q.continuous(L2, bm2, [&](Eng& e) { return d.sample_excitation_loss(e); },
+                                     [=](double x) { return g.G(x); }, 1, true);
+                        Q.R.tag(ef.both ? "quad:urban-stage:exc-both-fast" : "quad:urban-stage:exc-level1-fast-only");
+                    });
+
+            //// excitation: one level in the Poisson branch (+ the other fast or off) ////
+            struct ExcPois
+            {
+                US u;
+                int level;  // the Poisson level
+                char const* what;
+            };
+            std::vector<ExcPois> eps = {{{0, 1e-4, 1.0, 1e3, 0.99}, 0, "H2,loss=1e-4,Tmax=1 (level 1 Poisson, level 2 off)"},
+                                        {{0, 1e-3, 1e-3, 1e3, 0.99}, 0, "H2,loss=1e-3,Tmax=0.001 (level 1 Poisson, level 2 off)"},
+                                        {{1, 0.1, 1.0, 1e3, 0.99}, 1, "Ar,loss=0.1,Tmax=1 (level 1 fast, level 2 Poisson)"},
+                                        {{1, 0.5, 50.0, 1e3, 0.99}, 1, "Ar,loss=0.5,Tmax=50 (level 1 fast, level 2 Poisson)"}};
+            for (auto ep : eps)
+                add("eloss-urban", fmt("stage:excitation:poisson-level:%s", ep.what), [=](Quad& Q) {
+                    EnergyLossUrbanDistribution d = make(ep.u);
+                    int const i = ep.level, j = 1 - i;
+                    bool ok = d.xs_exc_[i] > 0 && d.xs_exc_[i] <= 8 && (d.xs_exc_[j] > 8 || d.xs_exc_[j] == 0)
+                              && (i == 1 || d.xs_exc_[1] == 0);
+                    if (!ok)
+                    {
+                        Q.R.harness_error(fmt("%s: excitation regime is not the declared one (xs_exc=%g,%g)",
+                                              Q.cid.c_str(), d.xs_exc_[0], d.xs_exc_[1]));
+                        return;
+                    }
+                    TN g{0, 0};
+                    if (d.xs_exc_[j] > 8)
+                        g = TN{ld(d.xs_exc_[j]) * d.binding_energy_[j], sqrtl(ld(d.xs_exc_[j])) * d.binding_energy_[j]};
+                    ld const lam = d.xs_exc_[i], E = d.binding_energy_[i];
+                    auto F = smear_cdf(lam, E, g);
+                    Q.R.note("info:" + Q.cid, fmt("xs_exc=(%g,%g) E=(%g,%g)", d.xs_exc_[0], d.xs_exc_[1],
+                                                  d.binding_energy_[0], d.binding_energy_[1]));
+                    // the first canonicals are the Poisson uniforms: {n <= k} is decreasing in each of
+                    // them (one monotone piece per axis, as for the Poisson cases above); everything
+                    // after them comes from the tail.  The only atom is the zero loss (n = 0, no
+                    // Gaussian part).
+                    Q.continuous_lr(L2, mono2, [&](Eng& e) { return d.sample_excitation_loss(e); }, F,
+                                    [=](double x) { return (g.s == 0 && x == 0) ? ld(0) : ld(F(x)); }, 16);
+                    Q.R.tag(d.xs_exc_[j] > 8 ? "quad:urban-stage:exc-poisson+fast" : "quad:urban-stage:exc-poisson-only");
+                });
+
+            //// ionisation, Poisson-only regime (xs_ion <= 8, alpha = 1) ////
+            std::vector<std::pair<US, char const*>> ios = {{{0, 1e-4, 1e-3, 1e3, 0.99}, "H2,loss=1e-4,Tmax=0.001"},
+                                                           {{2, 6e-5, 5e-4, 1e3, 0.99}, "Pb,loss=6e-5,Tmax=5e-4(Tmax<=I: no excitation)"},
+                                                           {{1, 1e-4, 50.0, 1e3, 0.99}, "Ar,loss=1e-4,Tmax=50"}};
+            for (auto io : ios)
+            {
+                US u = io.first;
+                add("eloss-urban", fmt("stage:ionisation:poisson-only:%s:P(no collision)", io.second), [=](Quad& Q) {
+                    EnergyLossUrbanDistribution d = make(u);
+                    if (!(d.xs_ion_ > 0 && d.xs_ion_ <= 8))
+                    {
+                        Q.R.harness_error(fmt("%s: xs_ion=%g is not in the Poisson-only regime", Q.cid.c_str(), d.xs_ion_));
+                        return;
+                    }
+                    ld const p0 = expl(-ld(d.xs_ion_));
+                    Q.R.note("info:" + Q.cid, fmt("xs_ion=%g", d.xs_ion_));
+                    // zero loss <=> no collision <=> first uniform <= exp(-xs_ion): depends on u1 only
+                    Q.discrete(L1, mono1, [&](Eng& e) { return d.sample_ionization_loss(e) == 0 ? 0.0 : 1.0; },
+                               [=](long long k) { return double(k < 0 ? 0 : (k == 0 ? p0 : 1)); });
+                    Q.R.tag("quad:urban-stage:ion-poisson-only");
+                });
+                add("eloss-urban", fmt("stage:ionisation:poisson-only:%s:single-collision-spectrum", io.second), [=](Quad& Q) {
+                    EnergyLossUrbanDistribution d = make(u);
+                    // the two Poisson uniforms are fixed at 1/2 (0 lattice bits): exactly one collision
+                    // iff 1/2 > exp(-xs) >= 1/4; its energy is then a function of the third canonical
+                    ld const p0 = expl(-ld(d.xs_ion_));
+                    if (!(d.xs_ion_ <= 8 && p0 < 0.5L && p0 >= 0.25L))
+                    {
+                        Q.R.tag("quad:urban-stage:ion-single-collision:skipped(xs not in (ln2,ln4])");
+                        return;
+                    }
+                    ld const e0 = 1e-5L, tmax = d.max_energy_;
+                    Lattice L3{{0, 0, b1}};
+                    Q.continuous(L3, {0, 0, 1}, [&](Eng& e) { return d.sample_ionization_loss(e); },
+                                 [=](double x) {
+                                     if (x <= e0)
+                                         return ld(0);
+                                     if (x >= tmax)
+                                         return ld(1);
+                                     return (1 - e0 / ld(x)) / (1 - e0 / tmax);
+                                 });
+                    Q.R.tag("quad:urban-stage:ion-single-collision");
+                });
+            }
+
+            //// ionisation, fast regime (xs_ion > 8): Gaussian for the collisions in [E0, alpha E0] plus
+            //// individually sampled collisions in (alpha E0, Tmax].  With n3 = xs_ion collisions of
+            //// density ~ 1/E^2 on [E0, Tmax], R = Tmax/E0 and alpha = (n3 + 8) R / (8 R + n3) (PHYS332
+            //// Eq. 25 with the class's max_collisions = 8):
+            ////   number above alpha E0:  Poisson(n3 (R - alpha) / (alpha (R - 1)))
+            ////   mean loss below:        n3 R E0 ln(alpha) / (R - 1)        (both by integrating 1/E^2)
+            //// Judged: the law of the number of collisions above alpha E0, and the MEDIAN of the Gaussian part (a normal
+            //// truncated symmetrically to (0, 2 mean] has median = mean whatever its width; the width
+            //// formula itself is not judged).
+            std::vector<std::pair<US, char const*>> ifs = {{{1, 1e-2, 1.0, 1e3, 0.99}, "Ar,loss=0.01,Tmax=1"},
+                                                           {{0, 0.1, 1e-3, 1e3, 0.99}, "H2,loss=0.1,Tmax=0.001"},
+                                                           {{2, 1e-3, 5e-4, 1e3, 0.99}, "Pb,loss=1e-3,Tmax=5e-4(no excitation)"}};
+            for (auto io : ifs)
+            {
+                US u = io.first;
+                auto ref = [](EnergyLossUrbanDistribution const& d, ld* lam_up, ld* mean_low) {
+                    ld const e0 = 1e-5L, R = ld(d.max_energy_) / e0, n3 = d.xs_ion_;
+                    ld const alpha = (n3 + 8) * R / (8 * R + n3);
+                    *lam_up = n3 * (R - alpha) / (alpha * (R - 1));
+                    *mean_low = n3 * R * e0 * logl(alpha) / (R - 1);
+                };
+                add("eloss-urban", fmt("stage:ionisation:fast:%s:number of collisions above alpha E0", io.second), [=](Quad& Q) {
+                    EnergyLossUrbanDistribution d = make(u);
+                    if (!(d.xs_ion_ > 8))
+                    {
+                        Q.R.harness_error(fmt("%s: xs_ion=%g is not in the fast regime", Q.cid.c_str(), d.xs_ion_));
+                        return;
+                    }
+                    ld lam, mlow;
+                    ref(d, &lam, &mlow);
+                    Q.R.note("info:" + Q.cid, fmt("xs_ion=%g: Poisson mean above alpha E0 = %Lg, Gaussian mean = %Lg", d.xs_ion_, lam, mlow));
+                    // canonicals 1,2 (the normal pair) fixed at 1/2: Box-Muller gives z in {0, -1.18}, accepted
+                    // at the first attempt.  Then the direct Poisson method draws n + 1 uniforms and every
+                    // collision one more: 2 + (n + 1) + n canonicals in total, i.e. the number n of collisions
+                    // above alpha E0 is read off the draw count.  Lattice on the first two Poisson uniforms
+                    // ({n <= k} is decreasing in each), the rest from the tail - as for the Poisson cases.
+                    Lattice L4{{0, 0, h, h}};
+                    bool first_rejected = false;
+                    Q.discrete(L4, {0, 0, 1, 1},
+                               [&](Eng& e) {
+                                   double x = d.sample_ionization_loss(e);
+                                   if (!(x > 0))
+                                       first_rejected = true;
+                                   uint64_t const c = e.canonicals();
+                                   return (c >= 3 && (c - 3) % 2 == 0) ? double((c - 3) / 2) : 1e6;
+                               },
+                               [=](long long k) { return double(poisson_cdf(lam, k)); });
+                    if (first_rejected)
+                        Q.R.violation("quad:eloss-urban:fast-ionisation-loss-not-positive", Q.cid,
+                                      "the Gaussian part lies in (0, 2 mean]: a non-positive ionisation loss is outside the support");
+                    Q.R.tag("quad:urban-stage:ion-fast:poisson-part");
+                });
+                add("eloss-urban", fmt("stage:ionisation:fast:%s:median of the Gaussian part", io.second), [=](Quad& Q) {
+                    EnergyLossUrbanDistribution d = make(u);
+                    ld lam, mlow;
+                    ref(d, &lam, &mlow);
+                    // lattice on the normal pair; third canonical 2^-32 exactly: exp(lam) 2^-32 < 1 (lam < 8),
+                    // so no collision above alpha E0 and the sample IS the Gaussian part.  Points whose first
+                    // normal is rejected (more than 3 canonicals) are left out: the accepted set and {x <= mean}
+                    // are both unions of Box-Muller cells, error <= 2 L / p_accept as for the conditional CDFs.
+                    uint64_t const N = L2.size();
+                    uint64_t acc = 0, below = 0;
+                    std::vector<uint32_t> sc(3);
+                    for (uint64_t idx = 0; idx < N; ++idx)
+                    {
+                        L2.script(idx, sc);
+                        sc[2] = 0u;
+                        Eng e({sc[0], sc[1], 0x00000001u}, mix64(Q.seed() + idx), 0u);
+                        double x = d.sample_ionization_loss(e);
+                        if (e.canonicals() != 3)
+                            continue;
+                        ++acc;
+                        if (x <= double(mlow))
+                            ++below;
+                    }
+                    if (acc < N / 2)
+                    {
+                        // declared configurations: sd < mean/4, first-attempt acceptance > 0.9999
+                        Q.R.violation("quad:eloss-urban:fast-ionisation-draw-pattern", Q.cid,
+                                      fmt("only %llu of %llu lattice points consumed exactly 3 canonicals (normal pair accepted at "
+                                          "the first attempt + one Poisson uniform <= exp(-lambda), lambda = %Lg < 8)",
+                                          (unsigned long long)acc, (unsigned long long)N, lam));
+                        return;
+                    }
+                    double const pacc = double(acc) / N;
+                    Q.judge("P(x <= analytic mean | first attempt accepted) vs 1/2", std::fabs(double(below) / acc - 0.5),
+                            L2.lterm(bm2), 0, acc, 2.0 / pacc);
+                    Q.R.note("info:" + Q.cid, fmt("Gaussian mean (analytic) = %Lg, accepted %llu of %llu, below %llu", mlow,
+                                                  (unsigned long long)acc, (unsigned long long)N, (unsigned long long)below));
+                    Q.R.count("evaluations", N);
+                    Q.R.tag("quad:urban-stage:ion-fast:gaussian-median");
+                    Q.R.nontrivial(vf::hash_str(Q.cid));
+                });
+            }
         }
     }
     return C;
